@@ -102,6 +102,8 @@ def case_text(b):
         return "%s%s classes %s" % (c["fn"], c["types"], c["classes"])
     if c["k"] == "jump":
         return "%s %s in a %s subroutine called from vcl_%s" % (c["jstmt"], c["nest"], c["callkind"], c["scope"])
+    if c["k"] == "bigcalls":
+        return "call graph %s of %d subs doubled=%s recursive=%s functional=%s" % (c["shape"], c["size"], c["doubled"], c["recursive"], c["functional"])
     if c["k"] == "initerr":
         return "init-error program %s x %d requests on one instance" % (c["class"], c["nreq"])
     if c["k"] == "director":
@@ -153,6 +155,7 @@ def run(ctx):
         ("include", dict(common, cfg="Total_include.cfg", tag="include")),
         ("request", dict(common, cfg="Total_request.cfg", tag="request")),
         ("jump", dict(common, cfg="Total_jump.cfg", tag="jump")),
+        ("bigcalls", dict(common, cfg="Total_bigcalls.cfg", tag="bigcalls")),
         ("initerr", dict(common, cfg="Total_initerr.cfg", tag="initerr")),
         ("director", dict(common, cfg="Total_director.cfg", tag="director")),
         ("lifecycle", dict(module="LifecycleTotal", cfg="LifecycleTotal.cfg", workers=2, timeout=1500, tag="lifecycle",
@@ -183,7 +186,7 @@ def run(ctx):
 
     cases = []
     for name, pre in (("assign", "a"), ("builtin", "b"), ("calls", "c"), ("include", "i"), ("request", "r"), ("jump", "j"),
-                      ("initerr", "e"), ("director", "d")):
+                      ("initerr", "e"), ("director", "d"), ("bigcalls", "g")):
         cases += load_cases([res[name].beh_path], pre)
     # lifecycle behaviours are wrapped into the case format
     import itertools
